@@ -605,6 +605,56 @@ def p4(prog: Program, chk: Check, timers) -> None:
                 path=None if path is None else g.describe_path(path, eu.loc))
 
 
+def p5(prog: Program, chk: Check, timers) -> None:
+    chk.rule("P5", "the `with` statement calls __exit__ only if __enter__ has returned: in enter() "
+             "of a class that starts a timer, starting it is the last thing that can raise - no "
+             "call, print or format follows Timer.start() before the return (exceptional edges "
+             "of the CFG); otherwise an exception raised after the start leaves the timer armed "
+             "with nobody to cancel it", floor=1)
+    if not timers:
+        raise AnalysisError("P5: no progress class creates a Timer any more - anchor vanished")
+    for cname in timers:
+        ci = prog.cls(f"util:{cname}")
+        en = ci.methods.get("enter")
+        if en is None:
+            raise AnalysisError(f"P5: {cname}.enter vanished")
+        g = CFG(en.node)
+        chk.saw(en, g)
+        starts = [n.id for n in g.nodes if not n.copy_of and any(
+            (method_call(c) or ("", ""))[1] == "start" for c in n.calls())]
+        if not starts:
+            chk.add("P5", en, f"{cname}.enter() starts no timer", True,
+                    "nothing to leave behind")
+            continue
+
+        def risky(a, b, l):
+            if l != "e":
+                return True
+            na = g.nodes[a]
+            if a in starts:
+                return False            # start() itself failing leaves no running timer
+            if na.kind in ("with_enter", "with_exit", "test"):
+                return False            # releasing the lock / testing a flag
+            if na.kind == "stmt" and isinstance(na.ast, (ast.Assign, ast.Return)) and \
+                    not any(isinstance(x, ast.Call) for x in ast.walk(na.ast)):
+                return False            # plain stores and `return self`
+            return True
+        bad = None
+        for s_ in starts:
+            nxt = [b for (b, l) in g.succ[s_] if l != "e"]
+            pth = g.find_path(nxt, lambda x: x == g.raise_exit, edge_ok=risky)
+            if pth is not None:
+                bad = [s_] + pth
+                break
+        chk.add("P5", en, f"{cname}.enter(): nothing that can raise after Timer.start()",
+                bad is None,
+                "" if bad is None else
+                "after the timer has been started enter() can still raise: the `with` statement "
+                "then never runs __exit__, exit() never cancels the timer, and it keeps firing "
+                "(and re-arming itself) after the call has failed",
+                path=None if bad is None else g.describe_path(bad, en.loc)[:8])
+
+
 def run(prog: Program, chk: Check) -> None:
     chk.explanation = (
         "Decides C19 structurally: a thread can outlive a call only if something started it "
@@ -624,3 +674,4 @@ def run(prog: Program, chk: Check) -> None:
     timers = p2(prog, chk)
     chk.call(p3, prog, chk, timers)
     chk.call(p4, prog, chk, timers)
+    chk.call(p5, prog, chk, timers)
